@@ -24,9 +24,9 @@ CHECKS = {
          "Trusts wit-parser/wit-component 0.247 as the reference WIT semantics and wasmparser's subtyping. Interfaces a world depends on only through `use` are not 'explicit imports' (wac encodes them types-only) and are compared by presence.",
          "DESIGN.md §5 C05, §4 E3"),
  "C11": ("mc-sem", "exploration",
-         "exhaustive (world, composition) table: resolution verdict, stand-alone validate_target on the encoded output and reference component subtyping must agree",
-         "7 generated worlds (function / interface / interface using another interface / versioned names; 0-2 imports, 1-2 exports) x conforming compositions and every single perturbation (extra implicit / explicit / interface import, missing export, export under another name, type change in an import or export, fewer imports, more exports, other compatible version): resolution must accept exactly the conforming ones with the corresponding diagnostic class otherwise; the stand-alone validate_target applied to the encoded output and wasmparser's component subtyping output <= world (one wrapper) must give the same verdict.",
-         "Worlds and implementation components come from generated WIT through wit-component; all resource-free. The table is small (35 pairs) but complete for its shapes.",
+         "exhaustive enumeration of (world, composition) pairs - a hand table of single perturbations plus every ordered list of 1..k library components per world - with three verdicts that must agree: resolution, stand-alone validate_target on the encoded output, reference component subtyping",
+         "7 generated worlds (function / interface / interface using another interface / versioned names; 0-2 imports, 1-2 exports). (a) Hand table: conforming compositions and every single perturbation (extra implicit / explicit / interface import, missing export, export under another name, type change in an import or export, fewer imports, more exports, other compatible version): resolution must accept exactly the conforming ones with the corresponding diagnostic class otherwise. (b) Generated family: every ordered list of 1..3 (quick) / 1..4 (thorough) of 21 library components (incl. components built against a wider or retyped version of an imported interface, so that several instantiations share an import name with different requirements) with all arguments implicit x export choice (world exports from the first / last instance offering them, or with extra exports) x 7 worlds: ~170k compositions quick. For every pair the resolution verdict, the stand-alone validate_target applied to the encoded output and wasmparser's component subtyping output <= world (one wrapper) must agree.",
+         "Worlds and components come from generated WIT through wit-component; all resource-free. For names at another semver-compatible version the statement is silent: only wac's two verdicts are compared there (1 known finding).",
          "DESIGN.md §5 C11"),
  "C16": ("mc-sem", "model_checking",
          "exhaustive input/history enumeration re-executed under an enumerated set of process hash seeds (LD_PRELOAD getrandom shim, single-threaded workers) and independent in-process rebuilds; SHA-256 equality",
